@@ -41,6 +41,19 @@ def indep(a, varname):
     return Claim("indep", sx.lift(a), varname)
 
 
+def fingerprint(d):
+    """residual of a failed identity at a canonical probe point (variable values derived from their names):
+    identifies *which* wrong expression the code computes, independently of seeds and witnesses."""
+    import zlib
+    names = dag.variables(d)
+    env = {nm: 0.5 + (zlib.crc32(nm.encode()) % 1000) / 1000.0 for nm in names}
+    try:
+        v = dag.fev(d, env)
+        return "%.6g" % v if v == v else "nan"
+    except Exception:
+        return "error"
+
+
 def _points(ctx, path, n_extra=6):
     pts = []
     if path.witness is not None:
@@ -110,7 +123,7 @@ def discharge(ctx, path, claim, smt_timeout_ms=20000, use_smt=True):
             return PROVED, "nf", {"t": time.time() - t0}
         env, v = _numeric_refute(ctx, path, d)
         if env is not None:
-            return REFUTED, "numeric", {"env": env, "residual": float(v), "t": time.time() - t0}
+            return REFUTED, "numeric", {"env": env, "residual": float(v), "t": time.time() - t0, "fingerprint": fingerprint(d)}
         if use_smt:
             r, model, dt = _z3_check(ctx, path, lambda zm: zm.term(d) != 0, smt_timeout_ms)
             if r == z3.unsat:
